@@ -139,6 +139,23 @@ def main():
         return [res.get(c["id"], {"id": c["id"], "crash": True}) for c in cases]
     ires = run(intact, 8)
     cres = run(cancel, 8)
+    # backed-up send direction: the writer is stalled on a full socket while the reader waits; a frame from
+    # the peer must be received before the peer starts to drain (arriving data wakes the receive whatever
+    # the state of the send direction), and what the peer drains afterwards must be intact
+    bp = [] if ck.replay else [{"id": i, "runtime": rt, "kind": "backpressure", "n": n, "size": sz}
+                               for i, (rt, n, sz) in enumerate((rt, n, sz) for rt in ("tokio", "smol")
+                                                               for n, sz in ((32, 8192), (64, 16384)))]
+    if ck.replay and json.load(open(ck.replay)).get("case", {}).get("kind") == "backpressure":
+        bp = [json.load(open(ck.replay))["case"]]
+    for c, r in zip(bp, run(bp, 4)):
+        ok = (r.get("recv") == "ok" and r.get("recv_before_drain") is True and r.get("intact") is True
+              and r.get("write") is None and r.get("frames") == c["n"])
+        if not ok:
+            ck.violation("with the send direction backed up (%s, %d frames of %d bytes queued towards a peer that does not "
+                         "read yet) a frame from the peer was not received before the peer started to drain, or the drained "
+                         "frames were not intact: %s" % (c["runtime"], c["n"], c["size"], json.dumps(r)[:300]),
+                         {"case": c, "impl": r}, tag="bp%d" % c["id"])
+    ck.cov["backpressure_scenarios"] = len(bp)
     idcases = [] if ck.replay else gen_ids(ck)
     idres = run(idcases, 1)      # one at a time: each uses 8 threads itself
     ids_created = 0
